@@ -9,6 +9,8 @@ CONSTANTS
   LookupsCap = 64
   FailKeep = FALSE
   RegionMemo = FALSE
+  NegCache = FALSE
+  SubMRU = FALSE
   MaxDepth = 3
   MaxDepthDmg = 2
   MaxDepthCollide = 2
@@ -22,6 +24,8 @@ CONSTANTS
   MaxDepthVar = 2
   VarTuples = {"t0", "tA", "tB", "tC"}
   MaxDepthScopes = 2
+  MaxDepthStrike = 2
+  MaxDepthPairs = 2
 SPECIFICATION Spec
 VIEW View
 INVARIANTS EmitCase
